@@ -6,8 +6,8 @@ STATE_NAMES = ["S", "I", "R", "W", "Z"]
 PARAM_NAMES = ["beta", "gamma", "mu", "kappa", "omega"]
 
 RATE_TEMPLATES = ["linear", "massaction", "constant", "saturating", "exponential",
-                  "periodic", "derived", "power", "stateonly"]
-MAGS = ["1", "2", "3", "P", "P/2"]
+                  "periodic", "derived", "power", "stateonly", "sum"]
+MAGS = ["1", "2", "3", "P", "P/2", "P+1"]
 
 
 class Chooser:
@@ -45,6 +45,8 @@ def rate_expr(tmpl, p, q, X, Y, dname):
         return "%s*%s" % (dname, X)
     if tmpl == "power":
         return "%s*%s**2/(%s+%s)" % (p, X, q, X)
+    if tmpl == "sum":             # a top-level sum: wrong if something is ever glued to it without parentheses
+        return "%s*%s + %s*%s" % (p, X, q, Y)
     if tmpl == "stateonly":       # a parameter-free product of two states with unit coefficient
         return "%s*%s" % (X, Y)
     raise ValueError(tmpl)
@@ -309,7 +311,7 @@ def seed_values(name):
 
 def small_block():
     """complete small-scope block: <=2 states, <=2 params, one event of 1-2 transitions or two
-    single-transition events; full product of type x endpoints x magnitude {1,2,c} x 3 rate templates"""
+    single-transition events; full product of type x endpoints x magnitude {1,2,c} x 4 rate templates (incl. a top-level sum)"""
     import itertools
     out = []
     mags = ["1", "2", "beta"]
@@ -332,7 +334,7 @@ def small_block():
                         for mg in mags:
                             trans_opts.append(("D", o, None, mg))
             rates = []
-            for tm in ("linear", "massaction", "saturating"):
+            for tm in ("linear", "massaction", "saturating", "sum"):
                 X, Y = states[0], states[-1]
                 rates.append(rate_expr(tm, params[-1], params[0], X, Y, None))
             base = {"states": states, "state_style": "list", "limits": [None] * ns, "params": params,
@@ -342,7 +344,7 @@ def small_block():
                     out.append(dict(base, events=[{"rate": rate, "trans": [t1]}]))
                     for t2 in trans_opts:
                         out.append(dict(base, events=[{"rate": rate, "trans": [t1, t2]}]))
-            for r1, r2 in itertools.product(rates[:2], rates[1:]):
+            for r1, r2 in itertools.product(rates[:2], rates[1:3]):
                 for t1 in trans_opts[::2]:
                     for t2 in trans_opts[1::2]:
                         out.append(dict(base, events=[{"rate": r1, "trans": [t1]}, {"rate": r2, "trans": [t2]}]))
